@@ -315,6 +315,10 @@ def rule_handshake(ctx):
     ctx.check(ok, "C05.HANDSHAKE", f2.short, "Never on control + Only on the BLOB connection", f"Client.blob_handshake sends {got}", fi=f2, text="client-handshake")
 
 
+# the router's fan-out does not isolate its clients: a library client (the drivers' snooping client is a BaseClient)
+# that raises on some device message ends the delivery to every client registered after it
+IMPORTS = [('C15', 'C15.MIRROR')]
+
 RULES = [
     ("C05.PRED", rule_pred, "delivery truth table of Router.process_message over class x policies x sender x device equals the property's oracle"),
     ("C05.KEY", rule_key, "enableBLOB changes exactly blob_routing[sender][message.device]"),
